@@ -34,7 +34,7 @@ ASSUMPTIONS = [
 PROBES = ["rules_total", "cat_accessible", "cat_tuned", "cat_failed", "all_three_in_one_run", "tuned_via_variable", "tuned_literal",
           "nested_depth_3", "nested_rule_tuned", "premium_runs", "default_bg_runs", "shared_var_sheet", "root_direct_color",
           "fallback_used", "important_present", "prop_case_present", "alpha_text_tuned", "api_calls", "dir_invocation",
-          "mode0", "mode1", "mode2", "report_present", "subprocess_crosscheck"]
+          "mode0", "mode1", "mode2", "report_present", "subprocess_crosscheck", "multi_file_runs"]
 
 C08_FEATURES = tuple(f for f in gen.ALL_FEATURES if f not in gen.C09_ONLY)
 
@@ -56,7 +56,21 @@ def generate(rseed, tier, idx):
     ast = gen.gen_sheet(g, feats, settings, max_rules=8)
     env = {"cwd": e.choice(("cwd", "cwd", "tree")), "tty": e.random() < 0.3, "argform": e.choice(("abs", "abs", "rel")),
            "inv": e.choice(("file", "file", "dir")), "name": e.choice(("a.css", "style.css", "my style.css", "thème.css"))}
-    return {"prop": ID, "ast": ast, "feats": feats, "settings": settings, "env": env, "subproc": idx % 16 == 3}
+    tr = {"prop": ID, "ast": ast, "feats": feats, "settings": settings, "env": env, "subproc": idx % 16 == 3}
+    if g.random() < 0.2:
+        # a directory of two stylesheets: custom properties defined in one, referenced (without definition) in the other
+        f2 = gen.draw_features(g, C08_FEATURES, 0.3)
+        ast2 = gen.gen_sheet(g, f2, settings, max_rules=4, tag="F2")
+        names = g.sample(("a.css", "sub/b.css", "zz.css", "th\u00e8me.css"), 2)
+        definer, user = (ast, ast2) if g.random() < 0.5 else (ast2, ast)
+        definer["items"].insert(g.randrange(len(definer["items"]) + 1), {"t": "rule", "sel": g.choice((":root", "html")), "decls": [
+            {"p": "--x-shared", "v": gen.spell(g, gen.rand_rgb(g))[0], "imp": ""}, {"p": "--undefined0", "v": gen.spell(g, gen.rand_rgb(g))[0], "imp": ""}]})
+        user["items"].append({"t": "rule", "sel": ".xref%dU" % g.randrange(100), "decls": [
+            {"p": "color", "v": g.choice(("var(--x-shared)", "var(--x-shared, #777)", "var(--undefined0, #767676)", "var(--undefined0)")), "imp": ""}]})
+        tr["sheets"] = [{"name": names[0], "ast": ast}, {"name": names[1], "ast": ast2}]
+        tr["order_key"] = e.randrange(1 << 30)
+        tr["env"]["inv"] = "dir"
+    return tr
 
 
 # ---------------------------------------------------------------------------
@@ -127,9 +141,16 @@ def _best_ratio(text, bg, alpha_text):
     return r
 
 
+def _sheets(trace):
+    if trace.get("sheets"):
+        return [(sh["name"], gen.render(sh["ast"])) for sh in trace["sheets"]]
+    return [(trace["env"]["name"], gen.render(trace["ast"]))]
+
+
 def execute(trace):
     env, settings = trace["env"], trace["settings"]
-    text = gen.render(trace["ast"])
+    sheets = _sheets(trace)
+    multi = len(sheets) > 1
     root = base.new_sandbox("c08")
     events, vio, stats = [], [], {}
     skipped = 0
@@ -145,17 +166,22 @@ def execute(trace):
     try:
         tdir = os.path.join(root, "tree")
         os.makedirs(tdir)
-        name = env["name"]
-        with open(os.path.join(tdir, name), "wb") as fh:
-            fh.write(text.encode("utf-8"))
-        target = "tree/" + name if env["inv"] == "file" else "tree"
-        res = base.in_fork(cli_run.cli_exec, root, target, settings, cwd_rel=env["cwd"], tty=env["tty"], argform=env["argform"], timeout=200)
+        for name, text in sheets:
+            pth = os.path.join(tdir, name)
+            os.makedirs(os.path.dirname(pth), exist_ok=True)
+            with open(pth, "wb") as fh:
+                fh.write(text.encode("utf-8"))
+        name, text = sheets[0]
+        target = "tree/" + name if (env["inv"] == "file" and not multi) else "tree"
+        res = base.in_fork(cli_run.cli_exec, root, target, settings, cwd_rel=env["cwd"], order_key=trace.get("order_key"),
+                           tty=env["tty"], argform=env["argform"], timeout=200)
         after = seams.snapshot(root)
-        out_ent = after.get("tree/" + name[:-4] + "_cm.css")
+        out_ents = {n: after.get("tree/" + n[:-4] + "_cm.css") for n, _ in sheets}
+        out_ent = out_ents[name]
         rep_rel = os.path.normpath(os.path.join(env["cwd"], "cm_colors_report.html"))
         rep_ent = after.get(rep_rel)
         summ = cli_run.parse_stdout(res["out"])
-        events.append((res["exit"], res["out"], res["err"], res["io"], base.digest(out_ent), base.digest(rep_ent)))
+        events.append((res["exit"], res["out"], res["err"], res["io"], sorted((n, base.digest(e)) for n, e in out_ents.items()), base.digest(rep_ent)))
         premium = bool(settings.get("premium"))
         target_ratio = refs.target_ratio(premium=premium)
         dbg = settings.get("default_bg") or "white"
@@ -164,19 +190,31 @@ def execute(trace):
             bump("premium_runs")
         if settings.get("default_bg"):
             bump("default_bg_runs")
-        if env["inv"] == "dir":
+        if target == "tree":
             bump("dir_invocation")
+        if multi:
+            bump("multi_file_runs")
 
-        # reference reading of the input
-        infos, props = refs.analyse(text, dbg)
-        defs = refs.custom_property_defs(tinycss2.parse_stylesheet(text, skip_whitespace=True, skip_comments=True))
-        crules = [ri for ri in infos if ri.color_decls]
-        by_sel = {}
-        for ri in crules:
-            by_sel.setdefault(ri.selector, []).append(ri)
+        # reference reading of the input(s); selectors are unique across the files of a run
+        def bn(x):
+            return x.rsplit("/", 1)[-1]
+
+        crules, by_sel, feats_of, file_of, defs_of, key_of = [], {}, {}, {}, {}, {}
+        for fname, ftext in sheets:
+            infos, props = refs.analyse(ftext, dbg)
+            defs = refs.custom_property_defs(tinycss2.parse_stylesheet(ftext, skip_whitespace=True, skip_comments=True))
+            for ri in infos:
+                if ri.color_decls:
+                    k = (bn(fname), ri.selector)
+                    key_of[id(ri)] = k
+                    crules.append(ri)
+                    by_sel.setdefault(k, []).append(ri)
+                    feats_of[k] = rule_features(ri, infos, defs, props)
+                    feats_of[k]["multi_file"] = multi
+                    file_of[k] = fname
+                    defs_of[k] = defs
         if any(len(v) > 1 for v in by_sel.values()):
             raise base.HarnessError("generator produced duplicate selectors among colour rules")
-        feats_of = {ri.selector: rule_features(ri, infos, defs, props) for ri in crules}
         bump("rules_total", len(crules))
         if any(f["shared_var"] for f in feats_of.values()):
             bump("shared_var_sheet")
@@ -190,20 +228,22 @@ def execute(trace):
             bump("nested_depth_3")
         sheet_feats = {"any_prop_case": any(f["prop_case"] for f in feats_of.values()),
                        "any_shared_var": any(f["shared_var"] for f in feats_of.values()),
-                       "any_root_color": any(f["selector_is_root"] for f in feats_of.values())}
+                       "any_root_color": any(f["selector_is_root"] for f in feats_of.values()), "multi_file": multi}
 
         if res["exit"] != 0:
             V("cli-raised", sheet_feats, exit=res["exit"], exc=res.get("exc"))
-        if res["err_paths"] or out_ent is None or out_ent[0] != "f":
+        if res["err_paths"] or any(e is None or e[0] != "f" for e in out_ents.values()):
             V("no-output", sheet_feats, stderr_tail=res["err"][-400:])
             return {"violations": vio, "digest": base.digest(events), "nontrivial": True, "stats": stats, "steps": len(res["io"]), "skipped": 0}
-        out_text = out_ent[1].decode("utf-8")
-        oinfos, oprops = refs.analyse(out_text, dbg)
-        odefs = refs.custom_property_defs(tinycss2.parse_stylesheet(out_text, skip_whitespace=True, skip_comments=True))
-        o_by_sel = {}
-        for ri in oinfos:
-            if ri.color_decls:
-                o_by_sel.setdefault(ri.selector, []).append(ri)
+        o_by_sel, odefs_of = {}, {}
+        for fname, _t in sheets:
+            out_text = out_ents[fname][1].decode("utf-8")
+            oinfos, oprops = refs.analyse(out_text, dbg)
+            odefs = refs.custom_property_defs(tinycss2.parse_stylesheet(out_text, skip_whitespace=True, skip_comments=True))
+            for ri in oinfos:
+                if ri.color_decls:
+                    o_by_sel.setdefault((bn(fname), ri.selector), []).append(ri)
+                    odefs_of[(bn(fname), ri.selector)] = odefs
 
         cards = []
         if rep_ent is not None and rep_ent[0] == "f":
@@ -219,7 +259,6 @@ def execute(trace):
 
         # 2. count law
         if A_ + T_ + F_ != len(crules):
-            # attribute: rules the tool cannot have seen (wrong-case property name) are the usual suspects
             V("count-law", sheet_feats, counted={"A": A_, "T": T_, "F": F_}, rules_with_text_colour=len(crules),
               selectors=[ri.selector for ri in crules])
         # 3. attribution
@@ -227,22 +266,19 @@ def execute(trace):
             V("cards-vs-count", sheet_feats, T=T_, cards=len(cards))
         if F_ != len(summ["failed"]):
             V("failed-list-vs-count", sheet_feats, F=F_, listed=len(summ["failed"]))
-        card_sels = [c["selector"] for c in cards]
-        fail_sels = [s for (_f, s) in summ["failed"]]
+        card_sels = [(c["file"], c["selector"]) for c in cards]
+        fail_sels = [(f_, s_) for (f_, s_) in summ["failed"]]
         for s in card_sels + fail_sels:
             if s not in by_sel:
-                V("double-listed", sheet_feats, selector=s, note="reported selector is not a rule with a text colour in the stylesheet")
+                V("double-listed", sheet_feats, file=s[0], selector=s[1], note="reported (file, selector) is not a rule with a text colour in the stylesheets")
         dup = sorted({s for s in card_sels + fail_sels if (card_sels + fail_sels).count(s) > 1})
         for s in dup:
-            V("double-listed", dict(feats_of.get(s, {}), **sheet_feats), selector=s, in_cards=card_sels.count(s), in_failed=fail_sels.count(s))
-        for (fn, _s) in summ["failed"]:
-            if fn != name:
-                V("double-listed", sheet_feats, note="failure list names another file", file=fn)
+            V("double-listed", dict(feats_of.get(s, {}), **sheet_feats), file=s[0], selector=s[1], in_cards=card_sels.count(s), in_failed=fail_sels.count(s))
 
         # 4. adjusted rules
         api_cache = {}
         for c in cards:
-            sel = c["selector"]
+            sel = (c["file"], c["selector"])
             ri = by_sel.get(sel, [None])[0]
             if ri is None:
                 continue
@@ -257,23 +293,21 @@ def execute(trace):
                 bump("nested_rule_tuned")
             if rf["alpha_text"]:
                 bump("alpha_text_tuned")
-            if c["file"] != name:
-                V("double-listed", rf, note="card names another file", file=c["file"])
             after_rgb = refs.css_rgb(c["after"]) if c["after"] else None
             ori = o_by_sel.get(sel, [None])[0]
             if ori is None:
-                V("reported-not-written", rf, selector=sel, note="rule has no text colour in the written file")
+                V("reported-not-written", rf, selector=sel[1], file=sel[0], note="rule has no text colour in the written file")
                 continue
             w_text, w_bg = refs.effective_pair_rgb(ori)
             if after_rgb is None or w_text is None or tuple(w_text) != tuple(after_rgb):
-                V("reported-not-written", rf, selector=sel, reported_after=c["after"], written_value=ori.color_value,
+                V("reported-not-written", rf, selector=sel[1], file=sel[0], reported_after=c["after"], written_value=ori.color_value,
                   written_effective=ori.eff_text, written_rgb=w_text)
             if w_text is not None and w_bg is not None:
                 ratio = _best_ratio(w_text, w_bg, _is_alpha(ori))
                 if refs.near_threshold(ratio, (target_ratio,)):
                     skipped += 1
                 elif ratio < target_ratio:
-                    V("written-fails-target", rf, selector=sel, written_text=w_text, written_bg=w_bg, ratio=ratio, target=target_ratio)
+                    V("written-fails-target", rf, selector=sel[1], file=sel[0], written_text=w_text, written_bg=w_bg, ratio=ratio, target=target_ratio)
             # api
             key = (c["before"], c["bg"])
             if key not in api_cache:
@@ -281,14 +315,14 @@ def execute(trace):
                 bump("api_calls")
             kind, val = api_cache[key]
             if kind != "ok" or val != (c["after"], True):
-                V("api-mismatch", rf, selector=sel, before=c["before"], bg=c["bg"], reported_after=c["after"], api=repr(val))
+                V("api-mismatch", rf, selector=sel[1], file=sel[0], before=c["before"], bg=c["bg"], reported_after=c["after"], api=repr(val))
             # before / bg are the pair the stylesheet specifies
             i_text, i_bg = refs.effective_pair_rgb(ri)
             r_bg = refs.css_rgb(c["bg"], over=(255, 255, 255)) if c["bg"] else None
             r_before = refs.css_rgb(c["before"], over=r_bg) if (c["before"] and r_bg) else None
             if i_text is None or i_bg is None or r_bg is None or r_before is None or tuple(r_bg) != tuple(i_bg) or \
                     max(abs(a - b) for a, b in zip(r_before, i_text)) > (2 if rf["alpha_text"] else 0):
-                V("before-mismatch", rf, selector=sel, reported_before=c["before"], reported_bg=c["bg"], stylesheet_text=ri.eff_text,
+                V("before-mismatch", rf, selector=sel[1], file=sel[0], reported_before=c["before"], reported_bg=c["bg"], stylesheet_text=ri.eff_text,
                   stylesheet_bg=ri.eff_bg, stylesheet_rgb=[i_text, i_bg])
 
         # 5. rules needing attention: listed (done above) and left unchanged
@@ -299,17 +333,18 @@ def execute(trace):
             rf = dict(feats_of[sel], **sheet_feats)
             ori = o_by_sel.get(sel, [None])[0]
             same = ori is not None and _decl_nf(ri, "color") == _decl_nf(ori, "color")
-            changed_props = [n for n in ri.var_refs if _defs_nf(defs.get(n)) != _defs_nf(odefs.get(n))]
+            changed_props = [n for n in ri.var_refs if _defs_nf(defs_of[sel].get(n)) != _defs_nf(odefs_of.get(sel, {}).get(n))]
             if not same or changed_props:
-                V("failed-rule-changed", rf, selector=sel, input=ri.color_decls, output=(ori.color_decls if ori else None),
+                V("failed-rule-changed", rf, selector=sel[1], file=sel[0], input=ri.color_decls, output=(ori.color_decls if ori else None),
                   changed_custom_properties=changed_props)
 
         # 6. everything else was counted as already readable: it must meet the target in the written file
         for ri in crules:
-            if ri.selector in card_sels or ri.selector in fail_sels:
+            rk = key_of[id(ri)]
+            if rk in card_sels or rk in fail_sels:
                 continue
-            rf = dict(feats_of[ri.selector], **sheet_feats)
-            ori = o_by_sel.get(ri.selector, [None])[0]
+            rf = dict(feats_of[rk], **sheet_feats)
+            ori = o_by_sel.get(rk, [None])[0]
             if ori is None:
                 V("accessible-fails-target", rf, selector=ri.selector, note="rule lost its text colour in the written file")
                 continue
@@ -328,7 +363,7 @@ def execute(trace):
 
         # 8. fidelity of the simulation itself: the real entry point in a real subprocess (pipes, real open, OS
         #    traversal order) must produce the same bytes and the same summary as the in-process run behind seams
-        if trace.get("subproc"):
+        if trace.get("subproc") and not multi:
             bump("subprocess_crosscheck")
             _subprocess_crosscheck(root, name, text, target, settings, env, res, out_ent, rep_ent)
 
@@ -398,6 +433,25 @@ def _defs_nf(defs):
 
 
 def shrink(trace):
+    if trace.get("sheets"):
+        for i in range(len(trace["sheets"])):
+            t = copy.deepcopy(trace)
+            del t["sheets"][i]
+            if len(t["sheets"]) == 1:
+                t["ast"] = t["sheets"][0]["ast"]
+                t["env"]["name"] = t["sheets"][0]["name"].rsplit("/", 1)[-1]
+                del t["sheets"]
+            yield t
+        for i, sh in enumerate(trace["sheets"]):
+            for t2 in shrink_sheet(sh["ast"]):
+                t = copy.deepcopy(trace)
+                t["sheets"][i]["ast"] = t2
+                yield t
+        for k in list(trace["settings"]):
+            t = copy.deepcopy(trace)
+            del t["settings"][k]
+            yield t
+        return
     for t2 in shrink_sheet(trace["ast"]):
         t = copy.deepcopy(trace)
         t["ast"] = t2
@@ -427,5 +481,5 @@ def shrink(trace):
 
 
 def sample_view(trace, res):
-    return {"stylesheet": gen.render(trace["ast"])[:1500], "settings": trace["settings"], "env": trace["env"], "features": trace["feats"],
+    return {"stylesheets": {n: t[:1500] for n, t in _sheets(trace)}, "settings": trace["settings"], "env": trace["env"], "features": trace["feats"],
             "digest": res["digest"], "stats": res["stats"]}
